@@ -368,7 +368,7 @@ Definition w_sv (with_header_entry : bool) : server :=
      sv_backends := ["A"; "B"; "C"] |}.
 
 Definition w_rq (host method path : string) (hs : list (string * string)) (ip : string) : request :=
-  {| rq_host := host; rq_method := method; rq_path := path; rq_headers := hs; rq_ip := ip |}.
+  {| rq_host := host; rq_method := method; rq_path := path; rq_rawpath := ""; rq_headers := hs; rq_ip := ip |}.
 
 Definition flag1 : quirks := {| q_cache_key_concat := true; q_cache_headerless_after_header := false;
   q_cache_status_before_ipfilter := false; q_cache_rule_filter_skipped := false |}.
